@@ -63,4 +63,79 @@ theorem generated_sessionless_SendCommand_accounting (c : Cmd) (hc : c.ent < 429
   rw [e]
   exact Proofs.C18.command_laws before name false decoded atts
 
+/-! ## histories -/
+
+/-- (command, name, response layer, IV draws, what happens to each transmission, whether the caller's context ends inside a Send) -/
+abbrev MetricsItem := Cmd × String × Opaque × List Bytes × List Outcome × Bool
+
+/-- one call of the translated `SendCommand` on connection value `K` -/
+def runItem (C : Ops) (k : Keys) (bd : Bytes → Bool) (K : Conn Decoded) (e : MetricsItem) :=
+  V2Session_SendCommand (sessWorld C k e.1 bd) (e.2.2.2.2.1.length + 1) (sessConsts k) (cmdOf e.1 e.2.1 e.2.2.1)
+    ({ ivs := e.2.2.2.1, script := e.2.2.2.2.1, sent := [], inSend := e.2.2.2.2.2 }, K)
+
+/-- the connection value after a history of calls, each made by the translated `SendCommand` on what the previous one left -/
+def generatedRun (C : Ops) (k : Keys) (bd : Bytes → Bool) : Conn Decoded → List MetricsItem → Conn Decoded
+  | K, [] => K
+  | K, e :: rest => generatedRun C k bd (runItem C k bd K e).2.2 rest
+
+/-- what happened, as the history events C18 counts: one `cmd` event per call, with the call's name, whether its response body
+    decoded, and what each attempt met -/
+def historyEvents (C : Ops) (k : Keys) (bd : Bytes → Bool) : Conn Decoded → List MetricsItem → List Metrics.Ev
+  | _, [] => []
+  | K, e :: rest =>
+    .cmd e.2.1 true (e.2.2.1 == 0 || bd (runItem C k bd K e).2.2.layers.message.payload)
+        (e.2.2.2.2.1.map (attOf C k e.1) ++ ending e.2.2.2.2.2)
+      :: historyEvents C k bd (runItem C k bd K e).2.2 rest
+
+def MetricsItem.ok (C : Ops) (k : Keys) (e : MetricsItem) : Prop :=
+  e.1.ent < 4294967296 ∧ e.1.reqFails = false ∧ noCrash C k e.1 e.2.2.2.2.1 ∧ (e.2.2.2.2.2 = false → e.2.2.2.2.1 ≠ [])
+
+/-- the Prometheus calls of a whole history of translated `SendCommand`s, applied to ANY starting metric values, are the
+    instrumentation model run over the history's events -/
+theorem generatedRun_metrics (C : Ops) (k : Keys) (hL : k.localID < 4294967296) (bd : Bytes → Bool) (m0 : Metrics.M)
+    (h : List MetricsItem) (hok : ∀ e ∈ h, e.ok C k) :
+    ∀ K : Conn Decoded, evsApply m0 (generatedRun C k bd K h).events
+      = Proofs.C18.runFrom (evsApply m0 K.events) (historyEvents C k bd K h) := by
+  induction h with
+  | nil => intro K; rfl
+  | cons e rest ih =>
+    intro K
+    obtain ⟨c, name, rsp, ivs, script, inSend⟩ := e
+    obtain ⟨hc, hf, hn, hne⟩ := hok (c, name, rsp, ivs, script, inSend) (by simp)
+    have ev : evsApply m0 (runItem C k bd K (c, name, rsp, ivs, script, inSend)).2.2.events
+        = Metrics.command (evsApply m0 K.events) name true
+            (rsp == 0 || bd (runItem C k bd K (c, name, rsp, ivs, script, inSend)).2.2.layers.message.payload)
+            (script.map (attOf C k c) ++ ending inSend) :=
+      V2Session_SendCommand_events_eq C c hc k hL hf ivs script hn inSend hne (script.length + 1) (Nat.le_refl _) bd name rsp [] K m0
+    have hrun : generatedRun C k bd K ((c, name, rsp, ivs, script, inSend) :: rest)
+        = generatedRun C k bd (runItem C k bd K (c, name, rsp, ivs, script, inSend)).2.2 rest := rfl
+    have hevs : historyEvents C k bd K ((c, name, rsp, ivs, script, inSend) :: rest)
+        = .cmd name true (rsp == 0 || bd (runItem C k bd K (c, name, rsp, ivs, script, inSend)).2.2.layers.message.payload)
+            (script.map (attOf C k c) ++ ending inSend)
+          :: historyEvents C k bd (runItem C k bd K (c, name, rsp, ivs, script, inSend)).2.2 rest := rfl
+    rw [hrun, hevs, ih (fun e he => hok e (by simp [he]))]
+    generalize runItem C k bd K (c, name, rsp, ivs, script, inSend) = r at ev ⊢
+    unfold Proofs.C18.runFrom
+    rw [List.foldl_cons, ev]
+    rfl
+
+/-- **CONSERVATION about the translated code**: over any history of in-session commands (any scripts of outcomes, contexts ending
+    in a Send or in the back-off), from any starting metric values — command attempts = calls made, per name; command failures =
+    calls that returned an error or whose body did not decode; retries = datagrams handed to the transport beyond the first of each
+    call; responses per completion code = accepted responses; the session / connection counters and gauges do not move. -/
+theorem generated_history_conservation (C : Ops) (k : Keys) (hL : k.localID < 4294967296) (bd : Bytes → Bool) (m0 : Metrics.M)
+    (h : List MetricsItem) (hok : ∀ e ∈ h, e.ok C k) (K : Conn Decoded) :
+    let before := evsApply m0 K.events
+    let after := evsApply m0 (generatedRun C k bd K h).events
+    let evs := historyEvents C k bd K h
+    (∀ n, cnt n after.cmdAttempts = cnt n before.cmdAttempts + Proofs.C18.calls n evs) ∧
+    (∀ n, cnt n after.cmdFailures = cnt n before.cmdFailures + Proofs.C18.failedCalls n evs) ∧
+    after.retries = before.retries + Proofs.C18.extraTransmissions evs ∧
+    (∀ c, cnt c after.responses = cnt c before.responses + Proofs.C18.responsesIn c evs) := by
+  intro before after evs
+  have e : after = _ := generatedRun_metrics C k hL bd m0 h hok K
+  obtain ⟨a1, a2, a3, a4, _⟩ := Proofs.C18.conservation before evs
+  rw [e]
+  exact ⟨a1, a2, a3, a4⟩
+
 end Bmc.Proofs.EndToEnd
